@@ -48,13 +48,28 @@ func (f *fetcher) handleUpstream304(req *http.Request, key cache.CacheKey) (cach
 	slog.Debug("Handling 304 response from upstream", "url", req.URL, "key", key)
 
 	slog.Debug("Revalidating cache metadata...", "url", req.URL, "key", key)
+	replaced := false
 	err = f.cache.UpdateMetadata(key, func(meta *cache.EntryMetadata[cachedRequestInfo]) {
+		// The 304 speaks about the response whose validators were sent. If another response has been
+		// stored under the key since (a Range request answered in full, another client's refresh),
+		// it has its own lifetime and validators: this 304 renews nothing of it.
+		if inm := req.Header.Get("If-None-Match"); inm != meta.Object.ETag {
+			replaced = true
+			return
+		}
+		if ims := req.Header.Get("If-Modified-Since"); ims != "" && ims != meta.Object.Header.Get("Last-Modified") {
+			replaced = true
+			return
+		}
 		// Update the metadata to reflect that the cached response is still valid.
 		maxAge := f.cfg.Proxy.CachePolicy.DefaultMaxAge.Read().Cast()
 		meta.Expires = time.Now().Add(maxAge)
 	})
 	if err != nil {
 		return nil, fmt.Errorf("%w: %v", ErrUpdateCacheMetadata, err)
+	}
+	if replaced {
+		return nil, fmt.Errorf("%w: the validated response is no longer the one stored", ErrUpdateCacheMetadata)
 	}
 
 	slog.Debug("Successfully revalidated cache metadata", "url", req.URL, "key", key)
